@@ -391,3 +391,16 @@ Definition C17_check (c : cfg) (kn : list N) (ops : list op) (o : obs) : bool :=
                       end) o
     && N.eqb (N.of_nat (length o)) (N.of_nat (length (callers ops)))
   else true.
+
+(* results sent to a call beyond the first one: they stay in its one-slot channel (or block the
+   event loop on it).  The driver reads this off the real channel after the schedule. *)
+Definition surplus (w : N) (rs : list (N * res)) : N := N.of_nat (length (results_of w rs)) - 1.
+Definition model_surplus (s : st) (ops : list op) : list (N * N) :=
+  map (fun w => (w, surplus w (results s))) (callers ops).
+Definition no_surplus (x : list (N * N)) : bool := forallb (fun p => N.eqb (snd p) 0) x.
+Fixpoint surplus_eqb (a b : list (N * N)) : bool :=
+  match a, b with
+  | [], [] => true
+  | (w, n) :: a', (w', n') :: b' => N.eqb w w' && N.eqb n n' && surplus_eqb a' b'
+  | _, _ => false
+  end.
